@@ -38,7 +38,7 @@ SPEC = {
                     "the 10 timestamp characters of header line 2 of a written molfile are masked", "yield injection only at line starts of antlr4/tucan Python code; no pre-emption inside C calls"],
     "shards": {"quick": len(JOBS["quick"]), "thorough": len(JOBS["thorough"])},
     "monitors_required": ["c14_config_compare", "c14_history_compare", "c14_schedule_compare", "c14_coldstart_compare", "c14_preempt_compare", "c14_reference_tables_agree"],
-    "required_obs": {"quick": ["preempt_schedules", "coldstart_context_switches_observed", "context_switches_observed", "cov_invalid_parse_ops", "cov_distinct_schedule_signatures_ge_2", "cov_hash_seeds", "disturbances"]},
+    "required_obs": {"quick": ["cov_config_optimize_and_int_limit", "preempt_schedules", "coldstart_context_switches_observed", "context_switches_observed", "cov_invalid_parse_ops", "cov_distinct_schedule_signatures_ge_2", "cov_hash_seeds", "disturbances"]},
     "watchdog_s": {"quick": 1500, "thorough": 7200},
 }
 
@@ -118,8 +118,9 @@ def build_ops(repo, seed):
     return ops
 
 
-def runner(ctx, args, hashseed="0", timeout=1200):
+def runner(ctx, args, hashseed="0", timeout=1200, extra_env=None):
     env = dict(os.environ)
+    env.update(extra_env or {})
     env["PYTHONHASHSEED"] = hashseed
     env["TUCAN_VERIF_REPO"] = ctx.repo
     env.pop("PYTHONPATH", None)
@@ -161,7 +162,12 @@ def run(ctx):
         return
     if kind == "config":
         hs = arg if not arg.startswith("r") else str(random.Random(f"{ctx.seed}/{arg}").randrange(1, 2 ** 32))
-        t2 = runner(ctx, [ops_path, "table"], hs)
+        # every second configuration also changes interpreter settings a host application may use: -OO (asserts and docstrings stripped),
+        # the int<->str digit limit switched off
+        extra = {"PYTHONOPTIMIZE": "2", "PYTHONINTMAXSTRDIGITS": "0"} if (ctx.shard % 2 == 1) else None
+        if extra:
+            ctx.count("cov_config_optimize_and_int_limit")
+        t2 = runner(ctx, [ops_path, "table"], hs, extra_env=extra)
         ctx.evaluations += len(ops)
         ctx.mon("c14_config_compare", len(ops))
         ctx.seen("cov_hash_seeds", hs)
